@@ -111,6 +111,23 @@ Section Full.
     else NoStream 4.
 
   Definition spe_embedding_full := spe_embedding_sched spe_schedule.
+
+  (* the values `lambda` takes at the start of iterations 0 .. n-1 when the annealing line divides by T *)
+  Fixpoint run_lambdas (T n : nat) (lam : F) : list F :=
+    match n with
+    | O => []
+    | S k => lam :: run_lambdas T k (lambda_next T lam)
+    end.
+
+  (* the coordinate side of the main loop with the lambda of every iteration given explicitly *)
+  Fixpoint spe_coords_lams (tol alpha : F) (R : nat -> nat -> F) (steps : list step_in) (lams : list F)
+           (Y : pts) : pts :=
+    match steps, lams with
+    | s :: rest, lam :: ls =>
+      spe_coords_lams tol alpha R rest ls
+                      (spe_step lam tol (s_pairs s) (targets alpha R (s_pairs s)) (s_norms s) Y)
+    | _, _ => Y
+    end.
 End Full.
 
 (* the value of lambda at the start of iteration t (lambda_0 = 1), over Q, divisor T *)
